@@ -354,7 +354,7 @@ func (p *Path) simp(b *B) *B {
 			return bLin(l, b.op)
 		}
 		// canonical-decimal rewrite: v == c  <=>  digits == "c"
-		if len(l.ts) == 1 && (l.ts[0].k == 1 || l.ts[0].k == -1) && (b.op == EQ0 || b.op == NE0) {
+		if !b.noRewrite && len(l.ts) == 1 && (l.ts[0].k == 1 || l.ts[0].k == -1) && (b.op == EQ0 || b.op == NE0) {
 			if s, ok := p.canonLink(l.ts[0].v); ok {
 				c := -l.c
 				if l.ts[0].k == -1 {
@@ -369,7 +369,15 @@ func (p *Path) simp(b *B) *B {
 				if b.op == NE0 {
 					e = bNot(e)
 				}
-				return e
+				// keep the integer fact too: under the interval abstraction the link between the
+				// digits and the value is not part of the query
+				if lo, hi := p.interval(l); (b.op == EQ0 && (lo > 0 || hi < 0)) || e.k == BFalse {
+					return bFalse
+				}
+				if e.k == BTrue {
+					return &B{k: BLin, lin: l, op: b.op}
+				}
+				return bAnd(&B{k: BLin, lin: l, op: b.op, noRewrite: true}, e)
 			}
 		}
 		lo, hi := p.interval(l)
@@ -403,7 +411,7 @@ func (p *Path) simp(b *B) *B {
 				return bFalse
 			}
 		}
-		return &B{k: BLin, lin: l, op: b.op}
+		return &B{k: BLin, lin: l, op: b.op, noRewrite: b.noRewrite}
 	case BStrEq:
 		return p.strEq(b.a, b.b)
 	case BStrLt, BStrLe:
